@@ -376,7 +376,17 @@ def asm_lists(ctx):
             return ("coo", len(rec) - 1)
     r = Rec(lambda u, v, w: None)
     cvec = np.arange(4.0)
-    b = ["B0", "B1", "B2"]
+
+    class B:
+        def __init__(self, name):
+            self.name, self.X = name, np.zeros((2, 3))
+
+        def interpolate(self, w):
+            return ("interpolated-by", self.name, id(w))
+
+        def __repr__(self):
+            return self.name
+    b = [B("B0"), B("B1"), B("B2")]
     for case, args in (("one-list", ([b[0], b[1]],)), ("two-lists", ([b[0], b[1]], [b[1], b[2], b[0]])), ("list-and-single", ([b[0], b[1]], b[2])), ("singles", (b[0], b[1]))):
         del rec[:]
         out = A.asm(r, *args, to=list, k=cvec, s=1.5)
@@ -404,7 +414,7 @@ def asm_lists(ctx):
         okw = True
         for fun, want in ((lambda w: 0, "Functional"), (lambda v, w: 0, "LinearForm"), (lambda u, v, w: 0, "BilinearForm"), (lambda u, v, z, w: 0, "TrilinearForm")):
             seen.clear()
-            A.asm(fun, "B0", to=list)
+            A.asm(fun, b[0], to=list)
             okw &= seen.get("cls") == want
     finally:
         for n, v in saved.items():
